@@ -38,6 +38,24 @@ void addl_return_##S(void) { fill(); SLOT(T); long v = (long)rt_nondet_u64(); T 
 void subl_return_##S(void) { fill(); SLOT(T); long v = (long)rt_nondet_u64(); T r = uatomic_sub_return(p, v); *q = (T)((U)old - (U)v); \
   rt_assert(r == *q, "uatomic_sub_return(long operand) returns the new value truncated to the operand width"); same(); }
 
+/* operand of a different C type than the target (unsigned int / int): the documented semantics are those of `*addr op= v`,
+ * i.e. v converted to the target type (value-preserving zero- or sign-extension, then truncation) */
+#define DEFX(T, U, S) \
+void addu_return_##S(void) { fill(); SLOT(T); unsigned int v = rt_nondet_u32(); T r = uatomic_add_return(p, v); *q = (T)((U)old + (U)(T)v); \
+  rt_assert(r == *q, "uatomic_add_return(unsigned int operand)"); same(); } \
+void subu_return_##S(void) { fill(); SLOT(T); unsigned int v = rt_nondet_u32(); T r = uatomic_sub_return(p, v); *q = (T)((U)old - (U)(T)v); \
+  rt_assert(r == *q, "uatomic_sub_return(unsigned int operand)"); same(); } \
+void addi_return_##S(void) { fill(); SLOT(T); int v = (int)rt_nondet_u32(); T r = uatomic_add_return(p, v); *q = (T)((U)old + (U)(T)v); \
+  rt_assert(r == *q, "uatomic_add_return(int operand)"); same(); } \
+void subi_return_##S(void) { fill(); SLOT(T); int v = (int)rt_nondet_u32(); T r = uatomic_sub_return(p, v); *q = (T)((U)old - (U)(T)v); \
+  rt_assert(r == *q, "uatomic_sub_return(int operand)"); same(); } \
+void addu_##S(void) { fill(); SLOT(T); unsigned int v = rt_nondet_u32(); uatomic_add(p, v); *q = (T)((U)old + (U)(T)v); same(); } \
+void subu_##S(void) { fill(); SLOT(T); unsigned int v = rt_nondet_u32(); uatomic_sub(p, v); *q = (T)((U)old - (U)(T)v); same(); } \
+void subi_##S(void) { fill(); SLOT(T); int v = (int)rt_nondet_u32(); uatomic_sub(p, v); *q = (T)((U)old - (U)(T)v); same(); } \
+void xchgi_##S(void) { fill(); SLOT(T); int v = (int)rt_nondet_u32(); T r = uatomic_xchg(p, v); *q = (T)v; rt_assert(r == old, "uatomic_xchg(int operand)"); same(); } \
+void cmpxchgi_##S(void) { fill(); SLOT(T); int e = (int)rt_nondet_u32(); int n = (int)rt_nondet_u32(); T r = uatomic_cmpxchg(p, e, n); \
+  if (old == (T)e) *q = (T)n; rt_assert(r == old, "uatomic_cmpxchg(int operands)"); same(); }
+
 DEF(uint8_t, uint8_t, u8)
 DEF(int8_t, uint8_t, s8)
 DEF(uint16_t, uint16_t, u16)
@@ -46,7 +64,16 @@ DEF(uint32_t, uint32_t, u32)
 DEF(int32_t, uint32_t, s32)
 DEF(uint64_t, uint64_t, u64)
 DEF(int64_t, uint64_t, s64)
+DEFX(uint8_t, uint8_t, u8)
+DEFX(int8_t, uint8_t, s8)
+DEFX(uint16_t, uint16_t, u16)
+DEFX(int16_t, uint16_t, s16)
+DEFX(uint32_t, uint32_t, u32)
+DEFX(int32_t, uint32_t, s32)
+DEFX(uint64_t, uint64_t, u64)
+DEFX(int64_t, uint64_t, s64)
 
 #define ALL(op) void all_##op(void) { op##_u8(); op##_s8(); op##_u16(); op##_s16(); op##_u32(); op##_s32(); op##_u64(); op##_s64(); }
 ALL(set) ALL(read) ALL(xchg) ALL(cmpxchg) ALL(add_return) ALL(sub_return) ALL(add) ALL(sub) ALL(inc) ALL(dec) ALL(and) ALL(or)
 ALL(addl_return) ALL(subl_return)
+ALL(addu_return) ALL(subu_return) ALL(addi_return) ALL(subi_return) ALL(addu) ALL(subu) ALL(subi) ALL(xchgi) ALL(cmpxchgi)
